@@ -286,6 +286,21 @@ fn mode_purity() {
             diff[i] = true;
         }
     }
+    // every case once more in a brand-new thread each (no thread-local history at all): what a fresh compiler thread
+    // would produce must be what the thread with the long history produced
+    for i in 0..cases.len() {
+        let (k, src) = (cases[i].1, cases[i].2.clone());
+        let r = std::thread::spawn(move || {
+            let r = expand_src(k, &src);
+            format!("{}|{}|{}|{}", r.parse, r.structure, r.gen, r.out_toks)
+        })
+        .join()
+        .unwrap_or_default();
+        counts[i] += 1;
+        if r != first[i] {
+            diff[i] = true;
+        }
+    }
     for round in 0..2 {
         for i in 0..cases.len() {
             let j = (i * 7 + round * 3) % cases.len();
